@@ -870,7 +870,7 @@ class Channel(typing.ContextManager):
             # end to ensure that it only matches the end of the stream
             if isinstance(prompt, BoundedPattern):
                 new_pattern = re.compile(
-                    prompt.pattern.pattern + b"$", prompt.pattern.flags
+                    prompt.pattern.pattern + b"\\Z", prompt.pattern.flags
                 )
                 prompt = BoundedPattern(new_pattern)
 
